@@ -152,7 +152,7 @@ def acceptance(ctx):
                                              for t in s.targets):
             stmts.append(s)
     if not stmts:
-        ctx.add(ObResult("C10/O3/acceptance-statements-found", "unknown", detail="no statement assigning `alpha` in the step loop"))
+        ctx.add(ObResult("C10/O3/acceptance-statements-found", "unknown", detail="no statement assigning `alpha` in the step loop")).replayer = "c10_shift"
         return
     I = ctx.interp()
     I.cur.append((MCMC, "BaseMCMCRunner.run"))
@@ -178,12 +178,12 @@ def acceptance(ctx):
         todo = stmts[1:]
     try:
         outs = I.exec_block(todo, st, MCMC)
-    except Unsupported as e:
-        ctx.add(ObResult("C10/O3/acceptance-statements/vc-generation", "unknown", detail=f"outside the supported subset: {e}"))
+    except __import__("pyvc.values", fromlist=["x"]).engine_errors() as e:
+        ctx.add(ObResult("C10/O3/acceptance-statements/vc-generation", "unknown", detail=f"outside the supported subset: {type(e).__name__}: {str(e)[:200]}")).replayer = "c10_shift"
         return
     outs = [o for o in outs if o.kind == "fall"]
     if len(outs) != 1:
-        ctx.add(ObResult("C10/O3/acceptance-statements/vc-generation", "unknown", detail="acceptance statements fork or raise"))
+        ctx.add(ObResult("C10/O3/acceptance-statements/vc-generation", "unknown", detail="acceptance statements fork or raise")).replayer = "c10_shift"
         return
     stf = outs[0].state
     al = stf.arr(stf.env["alpha"])
